@@ -675,7 +675,7 @@ pub fn run(ctx: &RunCtx) -> i32 {
     let meta = CheckMeta {
         property: "C10",
         level: "exploration",
-        rule: "forms built by a reference multipart encoder and policy signer (validated on the AWS example): field sets with case variations, x-amz-meta-*, header-equivalent fields, x-ignore-*, fields after the file, boundaries of 1..70 chars, file contents (empty, CR/LF runs, proper prefixes of the delimiter, boundary without CRLF, binary, up to 128 KiB); per valid form ~35 variants: correctly signed policies that are expired or whose bucket / key / field / length condition the upload violates, form changed after signing, and mutations of policy, signature, credential, date, algorithm, removed fields; a few transport framings. Verdict from a reference policy evaluator applied to what the backend would receive. A cell is (operator, content class, outcome).".into(),
+        rule: "forms built by a reference multipart encoder and policy signer (validated on the AWS example): field sets with case variations, x-amz-meta-*, header-equivalent fields, x-ignore-*, fields after the file, boundaries of 1..70 chars, file contents (empty, CR/LF runs, proper prefixes of the delimiter, boundary without CRLF, binary, up to 128 KiB); per valid form ~35 variants: correctly signed policies that are expired or whose bucket / key / field / length condition the upload violates, form changed after signing, and mutations of policy, signature, credential, date, algorithm, removed fields; a few transport framings. Verdict from a reference policy evaluator applied to what the backend would receive. Transport-fault leg: the body fails in transit before the delimiter that closes the file part has arrived (io::Error kinds, wrapped, custom) - backend not invoked or stream ended with an error. A cell is (operator, content class, outcome).".into(),
         assumptions: vec![
             "duplicated field names and ${filename} are not generated".into(),
             "the statement does not require every form field to be covered by a condition (AWS does); not judged".into(),
